@@ -184,15 +184,32 @@ def check_thread_safe(ck):
                 helper_same.add(c.func.attr)
                 ck.use(hf)
 
+    # locals holding the calling thread's running loop (`running_loop = asyncio.get_running_loop()`, possibly None on the
+    # no-loop path): `running_loop is self.asyncio_loop` is the same identity test
+    loop_aliases = {st.targets[0].id for st in own_walk(fi.node) if isinstance(st, ast.Assign) and len(st.targets) == 1 and isinstance(st.targets[0], ast.Name) and q.is_call(st.value, "asyncio.get_running_loop")}
+    for nm_ in loop_aliases:
+        for st in q.stores_to(fi.node, nm_):
+            if not (isinstance(st, ast.Assign) and (q.is_call(st.value, "asyncio.get_running_loop") or q.is_const(st.value, None))):
+                raise AnalysisError("%s: running-loop local %s bound to something else" % (fi.site(st), nm_))
+
+    def alias_same(e, negated_too=False):
+        ops = (ast.Is, ast.Eq, ast.IsNot, ast.NotEq) if negated_too else (ast.Is, ast.Eq)
+        if isinstance(e, ast.Compare) and len(e.ops) == 1 and isinstance(e.ops[0], ops):
+            a_, b_ = e.left, e.comparators[0]
+            for x_, y_ in ((a_, b_), (b_, a_)):
+                if isinstance(x_, ast.Name) and x_.id in loop_aliases and q.dotted(y_) == "self.asyncio_loop":
+                    return x_.id
+        return None
+
     def is_same(e, negated_too=False):
-        return _is_same_loop_test(e, negated_too) or (isinstance(e, ast.Call) and isinstance(e.func, ast.Attribute) and q.dotted(e.func.value) == "self" and e.func.attr in helper_same and not e.args)
+        return alias_same(e, negated_too) is not None or _is_same_loop_test(e, negated_too) or (isinstance(e, ast.Call) and isinstance(e.func, ast.Attribute) and q.dotted(e.func.value) == "self" and e.func.attr in helper_same and not e.args)
 
     tests = [nd for nd in cfg.stmt_nodes() if has(nd, lambda x: is_same(x, True))]
     if not tests:
         # is the guard absent, or present in a shape that is not understood?  Anything that could be a
         # thread/loop identity test in disguise makes the analysis fail closed; otherwise plain call_soon is simply unguarded.
         def opaque(x):
-            if isinstance(x, ast.Compare) and any(w in q.unparse(x) for w in ("get_running_loop", "get_ident", "_thread_ident", "current_thread", "_get_running_loop", "get_event_loop")):
+            if isinstance(x, ast.Compare) and any(w in q.unparse(x) for w in ("asyncio_loop", "get_running_loop", "get_ident", "_thread_ident", "current_thread", "_get_running_loop", "get_event_loop")):
                 return True
             if isinstance(x, ast.Call) and isinstance(x.func, ast.Attribute) and q.dotted(x.func.value) == "self" and x.func.attr not in ("_run_callback",) and any(w in x.func.attr for w in ("thread", "loop", "running", "current")):
                 return True
@@ -230,13 +247,15 @@ def check_thread_safe(ck):
                 raise AnalysisError("%s: scheduler local %s bound to something else" % (fi.site(st), nm))
 
     def tr(nd, v):
-        same, alias, chosen, bad, cnt = v
+        same, alias, chosen, bad, cnt, lv = v
         if nd.kind == "stmt" and isinstance(nd.ast, ast.Assign) and len(nd.ast.targets) == 1 and isinstance(nd.ast.targets[0], ast.Name):
             nm = nd.ast.targets[0].id
             if nm in bool_alias:
                 alias = "same?" if _is_same_loop_test(nd.ast.value) else False
             if nm in chosen_locals:
                 chosen = "plain" if nd.ast.value.attr == "call_soon" else "ts"
+            if nm in loop_aliases:
+                lv = "none" if q.is_const(nd.ast.value, None) else "run"
         if nd.kind in ("stmt", "test") and nd.ast is not None and not isinstance(nd.ast, q.ScopeNode):
             for x in q.walk_local(nd.ast):
                 if isinstance(x, ast.Call):
@@ -245,19 +264,28 @@ def check_thread_safe(ck):
                         cnt = min(2, cnt + 1)
                         if k == "plain" and same is not True:
                             bad = True
-        return (same, alias, chosen, bad, cnt)
+        return (same, alias, chosen, bad, cnt, lv)
 
     def edge(nd, kind, v):
-        same, alias, chosen, bad, cnt = v
+        same, alias, chosen, bad, cnt, lv = v
         if kind == "exc":
             if has(nd, lambda x: q.is_call(x, "asyncio.get_running_loop")):
                 same = False  # no running loop in this thread
-            return (same, alias, chosen, bad, cnt)
+            return (same, alias, chosen, bad, cnt, lv)
         if nd.kind == "test" and kind in ("true", "false"):
             e, pol = nd.ast, kind == "true"
             t, cpol = canon_fact(e, pol)
             core = ast.parse(t, mode="eval").body
-            if is_same(core):
+            if alias_same(core) is not None:
+                if lv == "none":
+                    if cpol:
+                        return None  # None is never this loop
+                    same = False
+                elif lv == "run":
+                    same = cpol
+                else:
+                    same = None
+            elif is_same(core):
                 same = cpol
             elif isinstance(core, ast.Name) and core.id in bool_alias:
                 if alias is False and cpol:
@@ -266,12 +294,12 @@ def check_thread_safe(ck):
                     same = cpol
                 elif alias is False:
                     same = False
-        return (same, alias, chosen, bad, cnt)
+        return (same, alias, chosen, bad, cnt, lv)
 
-    normal, _ = exit_states(cfg, (None, None, None, False, 0), tr, edge_transfer=edge, follow_exc=True, exc_effect=False)
+    normal, _ = exit_states(cfg, (None, None, None, False, 0, None), tr, edge_transfer=edge, follow_exc=True, exc_effect=False)
     ck.floor("C38.thread-safe", len(normal), 1, "normal exit states of add_callback")
     seen_ts = False
-    for _f, (same, alias, chosen, bad, cnt) in normal:
+    for _f, (same, alias, chosen, bad, cnt, lv) in normal:
         ck.ob("C38.thread-safe", fi, fi.node, not bad, "plain call_soon is used only on paths where the running loop is known to be this loop; other loop / no loop / unknown -> call_soon_threadsafe (wakes the selector)",
               construct="exit plain-call_soon-off-thread=%s same=%s" % (bad, same))
         if cnt == 0 and same is False and chosen is None:
@@ -386,6 +414,8 @@ def _eval_when(ck, fi, param, value, now):
     env = {p_: None for p_ in fi.params()}
     env[param] = value
     calls = {"self.time()": now, "self.call_at": lambda args: ("call_at", args[0] if args else None)}
+    if fi.name != "call_later":
+        calls["self.call_later"] = lambda args: ("call_at", (now + args[0]) if args and isinstance(args[0], Fraction) else None)
     try:
         tdeval.run(fi.node.body, env, calls)
     except tdeval.Returned as r:
@@ -404,8 +434,8 @@ def check_deadlines(ck):
     n = 0
     for nd in at.cfg.stmt_nodes(lambda nd: nd.kind == "stmt" and isinstance(nd.ast, ast.Return)):
         v = resolve_local(at, nd.ast.value)
-        if not (method_call_on(v, "self", "call_at") and len(v.args) >= 2):
-            raise AnalysisError("%s: add_timeout returns something other than self.call_at(...)" % at.site(nd.ast))
+        if not (method_call_on(v, "self", "call_at", "call_later") and len(v.args) >= 2):
+            raise AnalysisError("%s: add_timeout returns something other than self.call_at(...) / self.call_later(...)" % at.site(nd.ast))
         n += 1
         ck.ob("C38.deadline", at, nd.ast, q.dotted(v.args[1]) == "callback" and _forwards_varargs(v, at), "the callback and its *args/**kwargs are forwarded to call_at")
     ck.floor("C38.deadline", n, 2, "call_at returns in add_timeout")
@@ -646,6 +676,7 @@ def _drop_cancel_handler(root):
 
 
 MUTANTS = [
+    ("timedelta deadlines via call_later(deadline.seconds + microseconds/1e6) (days dropped; seeded C38-adv6)", _in(IO, "IOLoop.add_timeout", replace_expr(lambda n: isinstance(n, ast.Call) and q.call_attr(n) == "call_at" and "total_seconds" in ast.unparse(n), lambda n: ast.Call(func=ast.Attribute(value=ast.Name(id="self", ctx=ast.Load()), attr="call_later", ctx=ast.Load()), args=[parse_expr("deadline.seconds + deadline.microseconds / 1e6")] + n.args[1:], keywords=n.keywords))), "C38.deadline"),
     ("run_sync(timeout=0) treated as no timeout (`if timeout:`)", _in(IO, "IOLoop.run_sync", replace_expr(lambda n: isinstance(n, ast.Compare) and isinstance(n.ops[0], ast.IsNot) and ast.unparse(n.left) == "timeout", lambda n: n.left, limit=2)), "C38.none-test"),
     ("_run_callback ignores a falsy awaitable (`if ret:`)", _in(IO, "IOLoop._run_callback", replace_expr(lambda n: isinstance(n, ast.Compare) and isinstance(n.ops[0], ast.IsNot), lambda n: n.left)), "C38.none-test"),
     ("add_future may call back synchronously for a finished asyncio future", _in(IO, "IOLoop.add_future", _sync_add_future), "C38.add-future"),
